@@ -10,12 +10,17 @@
     * for those fields decode (encode x) = x (integers exactly, reals over any field, single precision
       as an idempotent `narrow`);
     * solution / extra arrays: unit inverse ∘ array-file round trip (C07) ∘ unified-file history (C08).
+    * groups (second round): IGRP window layout for every NWGMAX / NGMAXZ / child count, and the IGRP / SGRP / XGRP
+      tables regenerated from AggregateGroupData.{cpp,hpp} and rst/group.cpp agree item by item and measure by measure.
   NOT proved (correspondence / property mode only, counted in the evidence): right-hand sides emitted
-  as `opaque`, computed-index (tracer) slots, groups / MSW / UDQ / ACTIONX arrays, and the schedule
-  rebuilt from the restart file (`restart_schedule`): see design.d/C05.md.
+  as `opaque`, computed-index (tracer) slots, MSW / UDQ / ACTIONX / network arrays, and the schedule
+  rebuilt from the restart file — that one is *observed* on the real code, member-wise at every step
+  (harness/rstsched.cpp): see design.d/C05.md, Second round.
 -/
 import OpmVerif.Proofs.RstSlots
 import OpmVerif.Proofs.RstSolution
+import OpmVerif.Proofs.RstGroup
+import OpmVerif.Proofs.RstMsw
 
 namespace OpmVerif.Props.C05
 open OpmVerif.RstWindow OpmVerif.RstSlot OpmVerif.Gen.RstSlots OpmVerif.Ecl OpmVerif.Unrst
@@ -136,6 +141,17 @@ theorem field_roundtrip_summary {F : Type} [Field F] (narrow : F → F) (isSenti
     toSI o u m (if neg then o.neg (fromSI o u m x) else fromSI o u m x) = if neg then -x else x :=
   smry_roundtrip narrow isSentinel u hu m hoff neg x
 
+/-- Nested conversions (class `exactScale`; SCON StaticDFacCorrCoeff = [D]·[viscosity], written through the helper
+`staticDFacCorrCoeff` which the translator inlines): with offset-free measures the reader's
+`to_si(m1, to_si(m2, …))` returns the value the writer's `from_si(m1, from_si(m2, …))` was given; likewise the k-fold
+length-unit factor the MSW writer uses for areas and volumes. -/
+theorem field_roundtrip_chain {F : Type} [Field F] (narrow : F → F) (isSentinel : F → Bool) (u : UnitSys F)
+    (hu : u.Good) (ms : List String) (hoff : ∀ m ∈ ms, u.off m = 0) (x : F) (m : String) (k : Nat) (hm : u.off m = 0) :
+    toSIChain (fieldOps narrow isSentinel) u ms (fromSIChain (fieldOps narrow isSentinel) u ms x) = x ∧
+    toSIChain (fieldOps narrow isSentinel) u (List.replicate k m)
+      ((fieldOps narrow isSentinel).mul (fromSIChain (fieldOps narrow isSentinel) u (List.replicate k m) ((fieldOps narrow isSentinel).ofInt 1)) x) = x :=
+  ⟨chain_roundtrip narrow isSentinel u hu ms hoff x, unitpow_roundtrip narrow isSentinel u hu m k hm x⟩
+
 /-- Enum-coded connection fields: direction and open/shut state decode to what was encoded. -/
 theorem field_roundtrip_enum_tables :
     (∀ nv ∈ (connEnums.lookup "Direction").getD [],
@@ -161,7 +177,87 @@ theorem solution_file_roundtrip (n : Nat) (as : List Arr) (h : List (Nat × List
       decodeFile file = .ok (allArrs (specRun [] ((n, as) :: h))) :=
   file_after_history n as h hx hh
 
+/-! ## Groups (second round): IGRP / SGRP / XGRP tables regenerated from AggregateGroupData.{cpp,hpp} and rst/group.cpp -/
+
+open OpmVerif.RstGroup OpmVerif.Gen.RstGroup in
+/-- IGRP window layout, for every NWGMAX, NGMAXZ and child count: the child list `[0, nchild)` and the named items
+`nwgmax + k` (k below the named size) never share a position and both lie inside the window of size
+`base + max(NWGMAX, NGMAXZ)` that CreateInteHead.cpp announces; reading position i of the child list gives the i-th child. -/
+theorem group_window_layout (nwgmax ngmaxz : Nat) (children : List Int) (i k : Nat)
+    (hn : children.length ≤ nwgmax) (hi : i < children.length) (hk : k < nigrpzBase) :
+    i ≠ igrpPos nwgmax k ∧ igrpPos nwgmax k < sizeNIGRPZ nwgmax ngmaxz ∧ i < sizeNIGRPZ nwgmax ngmaxz ∧
+    (childPrefix nwgmax children).lookup i = children[i]? :=
+  ⟨(igrp_prefix_disjoint nwgmax ngmaxz children.length i k hn hi hk).1, (igrp_prefix_disjoint nwgmax ngmaxz children.length i k hn hi hk).2.1,
+   (igrp_prefix_disjoint nwgmax ngmaxz children.length i k hn hi hk).2.2, childPrefix_lookup nwgmax children i hi⟩
+
+open OpmVerif.RstGroup OpmVerif.Gen.RstGroup in
+/-- Generated group tables: item names of IGRP / SGRP (its three enums together) / XGRP are injective; every named
+writer entry uses its enum's item number inside the window; reader items are inside the window; the summary-vector →
+XGRP item maps are injective, inside the window, total on the vectors the writer loops over, and the FIELD map mirrors
+the group map. -/
+theorem group_slots_injective :
+    (((genumOf "IGroup.index").map (·.2)).Nodup ∧ (sgroupItems.map (·.2)).Nodup ∧ ((genumOf "XGroup.index").map (·.2)).Nodup) ∧
+    (∀ e ∈ gwriter, e.cls = "named" →
+      ((e.slot.front = '#' ∨ (gitems e.arr).lookup e.slot = some e.idx) ∧ 0 ≤ e.idx ∧ e.idx.toNat < gwindow e.arr)) ∧
+    (∀ e ∈ greader, 0 ≤ e.idx ∧ e.idx.toNat < gwindow e.arr) ∧
+    ((∀ kv ∈ groupKeyToIndex ++ fieldKeyToIndex, 0 ≤ kv.2 ∧ kv.2.toNat < sizeNXGRPZ) ∧
+     (groupKeyToIndex.map (·.2)).Nodup ∧ (fieldKeyToIndex.map (·.2)).Nodup ∧
+     (∀ k ∈ restartGroupKeys, (groupKeyToIndex.lookup k).isSome) ∧ (∀ k ∈ restartFieldKeys, (fieldKeyToIndex.lookup k).isSome)) ∧
+    (∀ kv ∈ fieldKeyToIndex, groupKeyToIndex.lookup (String.ofList ('G' :: kv.1.toList.drop 1)) = some kv.2) :=
+  ⟨group_index_enums_injective, gwriter_slots_in_window, greader_slots_in_window, xgrp_key_maps_sound, xgrp_field_map_mirrors_group_map⟩
+
+open OpmVerif.RstGroup OpmVerif.Gen.RstGroup in
+/-- Generated group tables agree: every (writer entry, reader entry) pair on one IGRP / SGRP item is in a compatible
+class (the decode ∘ encode theorems `field_roundtrip_int` / `field_roundtrip_real` apply to class exact) except the one
+declared member (exceed_action under GCONPROD FLD), which is a real information loss; every XGRP member of RstGroup
+reads the item its summary vector is written to with that vector's measure, for groups and FIELD alike, except the four
+declared members (liquid_production_rate reads the item that holds GVPR; voidage_production_total, oil/water_production_potential
+convert with another measure than the vector has) — and those really disagree; every IGRP / SGRP member with a stated
+meaning is fed from the source quantity of that meaning by the writer function of its own phase. -/
+theorem group_tables_agree :
+    (∀ p ∈ gpairs gwriter greader, gpairCls p ≠ .mismatch ∨ (gdeclaredExceptions.lookup p.2.field).isSome) ∧
+    (∀ x ∈ gdeclaredExceptions, ∃ p ∈ gpairs gwriter greader, p.2.field = x.1 ∧ gpairCls p = .mismatch) ∧
+    (∀ r ∈ greader, r.arr = "XGRP" →
+      (xcls groupKeyToIndex 'G' r = xcls fieldKeyToIndex 'F' r) ∧
+      xcls groupKeyToIndex 'G' r = (xdeclaredExceptions.lookup r.field).getD .ok) ∧
+    (∀ r ∈ greader, r.arr = "XGRP" → (groupFieldMeaning.lookup r.field).isSome) ∧
+    (∀ p ∈ gpairs gwriter greader, ∀ allowed, groupSourceMeaning.lookup p.2.field = some allowed →
+      p.1.src ∈ allowed ∧ (groupPhaseOfFn p.1.fn = "any" ∨ groupPhaseOfField p.2.field = "any" ∨ groupPhaseOfFn p.1.fn = groupPhaseOfField p.2.field)) :=
+  ⟨group_pairs_classified, group_exceptions_all_occur, xgrp_members_agree, xgrp_every_member_has_meaning, group_source_meanings⟩
+
+open OpmVerif.RstGroup OpmVerif.Gen.RstGroup in
+/-- Group limits the reader keeps in output units (UDA values): the writer's measure is the measure of the dimension
+that converts them later (rates: liquid / gas surface rate, reservoir rate). -/
+theorem group_raw_units_measures :
+    ∀ p ∈ gpairs gwriter greader, gpairCls p = .rawUnits →
+      (groupRawMeasure.lookup p.2.field).isSome ∧ Pre.measure? p.1.rpre = groupRawMeasure.lookup p.2.field :=
+  OpmVerif.RstGroup.group_raw_units_measures
+
+open OpmVerif.RstMsw OpmVerif.Gen.RstMsw in
+/-- Multi-segment wells (second round): the ISEG / RSEG tables regenerated from AggregateMSWData.cpp (stores at
+`<segment base> + item`) and rst/segment.cpp: item names injective, named entries use their enum's item number, and
+every (writer entry, reader entry) pair on one item is in a compatible class — lengths, densities, viscosities exact,
+areas as k-fold length-unit factors (`exactScale`), pressure from the WBHP summary vector — except four declared
+members of RstSegment (volume, total_flow, transition_region_width, max_valid_flow_rate), each a real disagreement. -/
+theorem msw_tables_agree :
+    (((senumOf "ISeg.index").map (·.2)).Nodup ∧ ((senumOf "RSeg.index").map (·.2)).Nodup) ∧
+    ((∀ e ∈ swriter, e.cls = "named" → e.slot.front ≠ '#' →
+        (senumOf (if e.arr = "ISEG" then "ISeg.index" else "RSeg.index")).lookup e.slot = some e.idx) ∧
+     (∀ e ∈ sreader, 0 ≤ e.idx → (senumOf (if e.arr = "ISEG" then "ISeg.index" else "RSeg.index")).lookup e.slot = some e.idx)) ∧
+    ((∀ p ∈ spairs swriter sreader, spairCls p ≠ .mismatch ∨ (sdeclaredExceptions.lookup p.2.field).isSome) ∧
+     (∀ x ∈ sdeclaredExceptions, ∃ p ∈ spairs swriter sreader, p.2.field = x.1 ∧ spairCls p = .mismatch)) :=
+  ⟨msw_index_enums_injective, msw_named_slots, msw_pairs_classified⟩
+
 /-! Non-vacuity. -/
+
+example : (OpmVerif.RstMsw.spairs OpmVerif.Gen.RstMsw.swriter OpmVerif.Gen.RstMsw.sreader).length = 44 := by decide +kernel
+-- group tables: sizes of what the theorems range over, and an IGRP window with three children under NWGMAX = 5
+example : (OpmVerif.RstGroup.gpairs OpmVerif.Gen.RstGroup.gwriter OpmVerif.Gen.RstGroup.greader).length = 37 := by decide +kernel
+example : (OpmVerif.Gen.RstGroup.greader.filter fun r => r.arr = "XGRP").length = 24 := by decide +kernel
+example : (OpmVerif.RstGroup.childPrefix 5 [3, 1, 2]).lookup 1 = some 1 ∧ (OpmVerif.RstGroup.childPrefix 5 [3, 1, 2]).lookup 5 = some 3 := by decide
+example : OpmVerif.RstGroup.xcls OpmVerif.Gen.RstGroup.groupKeyToIndex 'G'
+    ⟨"group.oil_production_potential", "XGRP", "OilPrPot", 22, .toSI "liquid_surface_volume", [], "double"⟩ = .wrongMeasure := by decide +kernel
+
 
 -- three wells, window size 4: writing well 1 and reading it back; well 0 and 2 untouched
 example : readSlot 4 1 (writeWindow 4 1 (List.replicate 12 0) [(0, 7), (2, 9), (0, 8)]) 0 = some 8 := by decide
@@ -174,7 +270,8 @@ example : validSrcI .plus1 41 := by simp [validSrcI, Pre.core]
 example : (encI .plus1 41).bind (decI .minus1) = some 41 := by decide
 example : classify "float" (.fromSI "length") (.toSI "length") = .exact := by decide
 example : classify "double" (.fromSI "length") (.toSI "pressure") = .mismatch := by decide
-example : (pairs writer reader).length = 134 ∧ (pairs writer loader).length = 49 := by decide +kernel
+example : (pairs writer reader).length = 135 ∧ (pairs writer loader).length = 49 := by decide +kernel
+example : ((pairs writer reader).filter fun p => pairCls p = .exactScale).length = 1 := by decide +kernel
 example : ((pairs writer reader).filter fun p => pairCls p = .exact).length = 68 := by decide +kernel
 
 -- a unit system satisfying `Good` over ℚ (length in feet: 1/0.3048)
